@@ -4,10 +4,10 @@ Property theorems about the model `GT.FSA` (lean/GT/Model/FSA.lean); helper lemm
 `GT/Lemmas/FSA*.lean`.  Each theorem family is followed by an `example` on a concrete automaton.
 -/
 import GT.Lemmas.FSALang
-import GT.Lemmas.FSAMult
+import GT.Lemmas.FSAMultTotal
 import GT.Lemmas.FSARename
 import GT.Lemmas.FSARec
-import GT.Lemmas.FSARlp2
+import GT.Lemmas.FSARlpTotal
 
 set_option linter.unusedSectionVars false
 
@@ -60,19 +60,21 @@ theorem initialAccepted_eq_self_iff (s : FSA V L) (v0 : V) (rest : List V) (hs :
     rwa [h] at this
   · exact acceptedPrefixFrom_eq_self
 
-/-- `initial_rejected_subword(word)` as coded: the word itself when it is accepted, otherwise the
-shortest rejected prefix (= longest accepted prefix plus the next letter) -/
+/-- `initial_rejected_subword(word)` (as documented, and as repaired): `None` exactly when the word
+is accepted from the first start vertex — so it agrees with `accepts` — and otherwise the shortest
+rejected prefix (= longest accepted prefix plus the next letter) -/
 theorem initialRejected_spec (s : FSA V L) (v0 : V) (rest : List V) (hs : s.starts = v0 :: rest)
     (w : List L) :
     ∃ r, s.initialRejected w = .ok r ∧
-      ((s.follow v0 w).isSome → r = w) ∧
-      (s.follow v0 w = none → r <+: w ∧ s.follow v0 r = none ∧
-        ∃ l, r = s.acceptedPrefixFrom v0 w ++ [l]) := by
+      (r = none ↔ s.accepts w (some v0) = true) ∧
+      (∀ p, r = some p → p <+: w ∧ s.follow v0 p = none ∧
+        ∃ l, p = s.acceptedPrefixFrom v0 w ++ [l]) := by
   refine ⟨s.rejectedPrefixFrom v0 w, by simp [FSA.initialRejected, hs], ?_, ?_⟩
-  · exact rejectedPrefixFrom_of_accepted
-  · intro h
-    obtain ⟨l, e, hp, hr⟩ := rejectedPrefixFrom_of_rejected h
-    exact ⟨hp, hr, l, e⟩
+  · rw [rejectedPrefixFrom_eq_none_iff]
+    simp [FSA.accepts]
+  · intro p hp
+    obtain ⟨e, hpre, hr⟩ := rejectedPrefixFrom_of_rejected hp
+    exact ⟨hpre, hr, e⟩
 
 /-- `enumerate_fixed_length_paths(n, start, with_states=True)` yields exactly the pairs
 `(w, q)` with `|w| = n` and `follow_word(w, start) = q` -/
@@ -121,10 +123,11 @@ def exFree : FSA String String := FSA.free (fun g => if g = "a" then "A" else "a
 
 example : exFree.RowsNodup ∧ exFree.accepts ["a", "a"] = true ∧ exFree.accepts ["a", "A"] = false ∧
     (exFree.initialAccepted ["a", "A", "a"]).toOption = some ["a"] ∧
-    (exFree.initialRejected ["a", "A", "a"]).toOption = some ["a", "A"] ∧
+    (exFree.initialRejected ["a", "A", "a"]).toOption = some (some ["a", "A"]) ∧
+    (exFree.initialRejected ["a", "a"]).toOption = some none ∧
     (exFree.enumUpTo "" 2).toOption.map (·.map Prod.fst) =
       some [[], ["a"], ["A"], ["a", "a"], ["A", "A"]] := by
-  refine ⟨?_, by decide, by decide, by decide, by decide, by decide⟩
+  refine ⟨?_, by decide, by decide, by decide, by decide, by decide, by decide⟩
   intro v row h
   have : row ∈ [[("a", "a"), ("A", "A")], [("a", "a")], [("A", "A")]] := by
     have hm := Dict.mem_of_get? h
@@ -209,9 +212,32 @@ theorem multiple_wf {s : FSA V L} (hs : s.RowsNodup) (k fuel : Nat) {A : FSA V (
   obtain ⟨h1, h2, h3, -⟩ := multiple_spec hs k fuel h
   exact ⟨h1, h2, h3⟩
 
-/- NOT PROVED (S `multiple_terminates`): a fuel bound under which `multiple` never answers `fuel`.
-   The loop marks on pop and never checks the mark at pop time; the number of pops can grow like
-   (#k-paths)^depth, so there is no polynomial bound; termination itself holds (DESIGN §4 C10). -/
+/-- **`automaton_multiple(k)` terminates, with an explicit bound on the number of pops.**  On a
+well-formed automaton whose start vertices are vertices and in which every vertex has at most `m`
+outgoing labels, the literal queue loop (which marks a vertex when it is popped and never checks the
+mark at pop time) returns within `multFuel s (m ^ k) = #starts · multA (m ^ k) #vertices` pops, where
+`multA D 0 = 0`, `multA D (u+1) = 1 + D·(1 + D·multA D u)`.  With `multiple_language` this turns the
+partial-correctness statement into a total one.  The bound is exponential in the number of
+vertices — and so is the loop: see the example below. -/
+theorem multiple_terminates {s : FSA V L} (hs : s.WF) (hst : ∀ v ∈ s.starts, v ∈ s.vertices) (k m : Nat)
+    (hm : ∀ v row, s.graph.get? v = some row → row.length ≤ m)
+    (fuel : Nat) (hf : multFuel s (m ^ k) ≤ fuel) : ∃ A, s.multiple k fuel = .ok A :=
+  multiple_total hs hst k (m ^ k) (fun v _ paths h => enumFixed_length_le m hm v k paths h) fuel hf
+
+section Exponential
+/-- `d + 1` vertices in a row, two parallel labels from each to the next -/
+def chain (d : Nat) : FSA Nat String :=
+  fromGraphDict ((List.range d).map fun i => (i, [("a", i + 1), ("b", i + 1)])) [0]
+
+/-- the literal loop of `automaton_multiple(1)` pops exactly `2^(d+1) - 1` times on `chain d`
+(a vertex queued `j` times is processed `j` times): 3, 7, 15, 31, 63 pops for 2, …, 6 vertices —
+one pop fewer is not enough — while the proved bound `multFuel` gives 15, 63, 255, 1023, 4095 -/
+example : ([1, 2, 3, 4, 5].map fun d =>
+      (((chain d).multiple 1 (2 ^ (d + 1) - 2)).toOption.isSome,
+       ((chain d).multiple 1 (2 ^ (d + 1) - 1)).toOption.isSome, multFuel (chain d) (2 ^ 1))) =
+    [(false, true, 15), (false, true, 63), (false, true, 255), (false, true, 1023), (false, true, 4095)] := by
+  rfl
+end Exponential
 
 /-! ## relabelling -/
 
@@ -264,7 +290,7 @@ theorem recurrent_greatest {s : FSA V L} (hs : s.WF) :
 /-- **`remove_long_paths(root, edge_ties)` keeps exactly the edges lying on shortest paths from the
 root.**  Whenever the call returns `(H, dist)` (`dist` is the loop's `distance` dictionary) for the
 root `r` — the given one or, for `root=None`, the first start vertex — then: `H` is a well-formed
-automaton on the same vertex set (with an empty start list, as coded); `dist[x] = n` iff `n` is the
+automaton on the same vertex set whose start vertex is `r`; `dist[x] = n` iff `n` is the
 graph distance from `r` to `x`; every edge of `H` is an edge of the original automaton from a vertex
 at distance `d` to a vertex at distance `d + 1`; with `edge_ties=True` `H` has *every* such edge; with
 `edge_ties=False` every vertex reachable from `r`, other than `r`, has in `H` incoming edges from
@@ -272,8 +298,8 @@ exactly one vertex (so `H` is a spanning tree of the shortest-path edges), and a
 keeps all its parallel labels. -/
 theorem removeLongPaths_shortest {s : FSA V L} (hs : s.WF) (root : Option V) (ties : Bool)
     {H : FSA V L} {dist : Dict V Nat} (h : s.removeLongPaths root ties = .ok (H, dist)) :
-    H.WF ∧ H.starts = [] ∧ (∀ v, v ∈ H.vertices ↔ v ∈ s.vertices) ∧
-    ∃ r, (root = some r ∨ (root = none ∧ s.starts.head? = some r)) ∧
+    H.WF ∧ (∀ v, v ∈ H.vertices ↔ v ∈ s.vertices) ∧
+    ∃ r, (root = some r ∨ (root = none ∧ s.starts.head? = some r)) ∧ H.starts = [r] ∧
       (∀ x n, dist.get? x = some n ↔ IsDist s r x n) ∧
       (∀ v l w, H.step v l = some w →
         s.step v l = some w ∧ ∃ d, IsDist s r v d ∧ IsDist s r w (d + 1)) ∧
@@ -285,9 +311,13 @@ theorem removeLongPaths_shortest {s : FSA V L} (hs : s.WF) (root : Option V) (ti
         (∀ v l w, H.step v l = some w → ∀ l', s.step v l' = some w → H.step v l' = some w)) :=
   removeLongPaths_spec hs root ties h
 
-/- NOT PROVED: that `remove_long_paths` never raises when the root is a vertex (totality); the
-   theorem is about every call that returns.  Covered by the correspondence (the model raises
-   exactly when the implementation does on the generated automata). -/
+/-- **`remove_long_paths` never raises on a well-formed automaton whose root is a vertex**, so
+`removeLongPaths_shortest` describes every such call: no dictionary read of the loop fails and the
+breadth-first loop ends within `#vertices + 2` iterations. -/
+theorem removeLongPaths_total {s : FSA V L} (hs : s.WF) (root : Option V) (ties : Bool) (r : V)
+    (hr : root = some r ∨ (root = none ∧ s.starts.head? = some r)) (hv : r ∈ s.vertices) :
+    ∃ H dist, s.removeLongPaths root ties = .ok (H, dist) :=
+  FSA.removeLongPaths_total hs root ties r hr hv
 
 /-! ## non-in-place operations
 
